@@ -36,9 +36,14 @@ type c16Case struct {
 	RecCache bool     `json:"rec_cache"`
 	Exts     []string `json:"exts"`
 	Ops      []c16Op  `json:"ops"`
+	// ForeignCache (with RecCache): before the history starts the Cache object already holds templates under
+	// the names of this case, put there by somebody else (another Set sharing the Cache, the application).
+	// Development mode must not serve them; otherwise they are hits like any other.
+	ForeignCache bool `json:"foreign_cache,omitempty"`
 }
 
-var c16Names = []string{"/a", "/b", "/sub/c", "/d"}
+// (indices are part of saved cases: append only) - the last name itself ends in what may be a configured extension
+var c16Names = []string{"/a", "/b", "/sub/c", "/d", "/e.jet"}
 
 type c16File struct {
 	variant string
@@ -104,6 +109,7 @@ func genC16(t *rapid.T) c16Case {
 	c.Dev = rapid.IntRange(0, 3).Draw(t, "dev") == 0
 	c.RecCache = rapid.Bool().Draw(t, "recCache")
 	c.Exts = c15ExtLists[rapid.IntRange(0, len(c15ExtLists)-1).Draw(t, "exts")]
+	c.ForeignCache = c.Dev && c.RecCache && rapid.Bool().Draw(t, "foreignCache")
 	n := rapid.IntRange(2, 20).Draw(t, "nops")
 	for i := 0; i < n; i++ {
 		op := c16Op{Name: rapid.IntRange(0, len(c16Names)-1).Draw(t, "name")}
@@ -283,6 +289,18 @@ func judgeC16(c c16Case) (v core.Verdict) {
 		opts = append(opts, jet.WithCache(rc))
 	}
 	s := jet.NewSet(fl, opts...)
+	if c.ForeignCache {
+		// parsed by another Set from sources this loader never had
+		other := jet.NewSet(jet.NewInMemLoader())
+		for _, n := range c16Names {
+			for _, e := range c.Exts {
+				if ft, err := other.Parse(n+e, "FOREIGN "+n+e); err == nil {
+					rc.m[n+e] = ft
+				}
+			}
+		}
+		v.Label("cache-pre-filled-by-someone-else")
+	}
 	m := &c16Model{c: c, files: fl.files, faults: fl.faults, status: make([]int, len(c16Names)), ptr: make([]*jet.Template, len(c16Names))}
 	version := 0
 	type heldTpl struct {
